@@ -74,6 +74,8 @@ func (e Evt) coq() string {
 		return "ECleanup"
 	case "gcgens":
 		return "EGcGens"
+	case "relbuckets_new":
+		return "ERelBucketsNew"
 	default:
 		return "ERelBuckets"
 	}
@@ -103,7 +105,8 @@ type world struct {
 	lim     uint64
 	cl      *cache.Cleaner
 	met     *cache.Metrics
-	caches  []*cache.Cache[[]byte]
+	caches  []*cache.VerifHookedCache[[]byte]
+	onScan  func() // called from every Released() of ReleaseBuckets' unlocked scan
 	rel     []bool
 	ids     map[any]int
 	thr     []*thr
@@ -323,11 +326,7 @@ func (w *world) do(e Evt) {
 			return
 		}
 	case "new":
-		c := cache.NewCache[[]byte](w.cl, w.met)
-		w.ids[any(c)] = len(w.caches)
-		w.caches = append(w.caches, c)
-		w.rel = append(w.rel, false)
-		w.esz = c.VerifEntrySize()
+		w.newCache()
 	case "release":
 		w.caches[e.C].Release()
 		w.rel[e.C] = true
@@ -360,6 +359,28 @@ func (w *world) do(e Evt) {
 		}
 	case "relbuckets":
 		ret = []int64{int64(w.cl.ReleaseBuckets())}
+	case "relbuckets_new":
+		// a NewCache (AddBucket) lands inside ReleaseBuckets, between its unlocked Released() scan and its
+		// locked removal: it is created from the e.T-th Released() call of the scan
+		if len(w.cl.VerifBuckets()) == 0 {
+			w.dead = "relbuckets_new needs at least one bucket"
+			return
+		}
+		n, fired, pos := 0, false, e.T%len(w.cl.VerifBuckets())
+		w.onScan = func() {
+			if n == pos && !fired {
+				fired = true
+				w.newCache()
+			}
+			n++
+		}
+		ret = []int64{int64(w.cl.ReleaseBuckets())}
+		w.onScan = nil
+		if !fired {
+			w.dead = "relbuckets_new: the scan never called Released()"
+			return
+		}
+		w.feat["sched:new-cache-inside-releasebuckets"] = true
 	default:
 		panic("unknown op " + e.Op)
 	}
@@ -368,6 +389,18 @@ func (w *world) do(e Evt) {
 	}
 	w.evs = append(w.evs, e)
 	w.observe(ret)
+}
+
+func (w *world) newCache() {
+	c := cache.VerifNewHookedCache[[]byte](w.cl, w.met, func() {
+		if w.onScan != nil {
+			w.onScan()
+		}
+	})
+	w.ids[any(c)] = len(w.caches)
+	w.caches = append(w.caches, c)
+	w.rel = append(w.rel, false)
+	w.esz = c.VerifEntrySize()
 }
 
 func b2i(b bool) int64 {
@@ -671,7 +704,11 @@ func genRandom(r *rng.R, cw *casefile.Writer, conc bool) {
 		case x < 95:
 			w.do(Evt{Op: "gcgens"}) // also while creators are parked on an older generation (pattern R2, repaired by b9905fa)
 		default:
-			w.do(Evt{Op: "relbuckets"})
+			if len(w.caches) < 7 && len(w.cl.VerifBuckets()) > 0 && r.Chance(1, 3) {
+				w.do(Evt{Op: "relbuckets_new", T: r.Intn(8)})
+			} else {
+				w.do(Evt{Op: "relbuckets"})
+			}
 		}
 	}
 	w.drain()
@@ -722,7 +759,7 @@ func genBoundary(r *rng.R, cw *casefile.Writer) {
 
 // exhaustive: n caches, every subset of them released (in the given order), then ReleaseBuckets
 // and the maintenance calls that show whether a live cache fell out of the cleaner's management
-func genReleaseSubset(cw *casefile.Writer, n int, mask int, order []int, lim uint64) {
+func genReleaseSubset(cw *casefile.Writer, n int, mask int, order []int, lim uint64, newAt int) {
 	w := newWorld(lim)
 	var v int64 = 100
 	for i := 0; i < n; i++ {
@@ -743,16 +780,27 @@ func genReleaseSubset(cw *casefile.Writer, n int, mask int, order []int, lim uin
 			w.do(Evt{Op: "release", C: c})
 		}
 	}
-	w.do(Evt{Op: "relbuckets"})
+	nc := n
+	if newAt >= 0 {
+		// a new cache is added while ReleaseBuckets is between its scan and its removal
+		w.do(Evt{Op: "relbuckets_new", T: newAt})
+		nc = n + 1
+	} else {
+		w.do(Evt{Op: "relbuckets"})
+	}
 	w.do(Evt{Op: "rotate"})
-	for i := 0; i < n; i++ {
-		if mask&(1<<i) == 0 {
+	for i := 0; i < nc; i++ {
+		if i >= n || mask&(1<<i) == 0 {
 			get(i, 2)
 		}
 	}
 	w.do(Evt{Op: "cleanup"})
 	w.do(Evt{Op: "gcgens"})
 	w.do(Evt{Op: "relbuckets"})
+	if newAt >= 0 {
+		w.emit(cw, "release-subsets-new-cache-inside", true)
+		return
+	}
 	w.emit(cw, "release-subsets", true)
 }
 
@@ -879,11 +927,17 @@ func main() {
 			asc[i] = i
 		}
 		for mask := 0; mask < 1<<n; mask++ {
-			genReleaseSubset(cw, n, mask, asc, 300)
+			genReleaseSubset(cw, n, mask, asc, 300, -1)
 			if n <= 3 {
 				for _, p := range perms(n)[1:] {
-					genReleaseSubset(cw, n, mask, p, 300)
+					genReleaseSubset(cw, n, mask, p, 300, -1)
 				}
+			}
+			// the same subset with a NewCache landing inside ReleaseBuckets, created from the first and
+			// from the last Released() call of the scan
+			genReleaseSubset(cw, n, mask, asc, 300, 0)
+			if n > 1 {
+				genReleaseSubset(cw, n, mask, asc, 300, n-1)
 			}
 		}
 	}
